@@ -3,6 +3,8 @@
 package cl
 
 import (
+	"fmt"
+
 	"github.com/ohler55/slip"
 )
 
@@ -46,8 +48,8 @@ type MakeList struct {
 func (f *MakeList) Call(s *slip.Scope, args slip.List, depth int) slip.Object {
 	slip.CheckArgCount(s, depth, f, args, 1, 3)
 	size, ok := args[0].(slip.Fixnum)
-	if !ok || size < 0 {
-		slip.TypePanic(s, depth, "size", args[0], "fixnum")
+	if !ok || size < 0 || slip.ArrayMaxDimension < size {
+		slip.TypePanic(s, depth, "size", args[0], fmt.Sprintf("non-negative fixnum less than %d", slip.ArrayMaxDimension))
 	}
 	ie, _ := slip.GetArgsKeyValue(args[1:], slip.Symbol(":initial-element"))
 	list := make(slip.List, int(size))
